@@ -38,6 +38,7 @@ func runC01(c *Ctx) {
 	c.rule("R1", "acquisition is one exclusive create: TryLock returns nil only on the nil side of afero.Fs.Mkdir(lockPath) through l.fs.vfs; no MkDir/MkDirAll/MkdirAll on the lock path; Lock returns nil only where TryLock did and waits/retries only on ErrLocked", 4)
 	c.rule("R2", "in a function retried by retry.Do, after a removal of the lock path returned nil no path returns a non-nil error (the removal must not be re-run)", 2)
 	c.rule("R3", "stale take-over: between the staleness verdict and the removal of the lock path there is an atomic claim (Rename/Move of the lock path to a private name)", 1)
+	c.rule("R6", "the staleness verdict that licenses a take-over counts a heartbeat file it cannot read as a sign of life", 1)
 	c.rule("R5", "inside the lock implementation only Unlock removes lockPath() and only ReleaseIfStale calls Unlock: acquire paths never release", 2)
 	c.rule("R4", "lockPath() depends only on the lock's directory, prefix and id; it is the path created by TryLock and the path removed by Unlock", 3)
 
@@ -319,6 +320,30 @@ func runC01(c *Ctx) {
 				c.violate("R5", key, c.ipos(cl), outer.Name()+" removes the lock directory (through "+short(calleeNameOf(cl))+") although it is not the holder's release nor the guarded stale take-over: a contender whose acquisition failed deletes the lock of whoever holds it, and the next acquire succeeds while the holder still holds")
 			}
 		})
+	}
+
+	// ---- R6 ---------------------------------------------------------------
+	// The take-over of R3 is licensed by IsStale(): what IsStale cannot read must not license it (shared with C17/S7).
+	if isStaleM, isStaleF := c.fnOpt(fsPkgRel, "(*RemoteLockFile).IsStale"), c.fnOpt(fsPkgRel, "isStale"); isStaleM != nil && isStaleF != nil {
+		comb := c.fnOpt(fsPkgRel, "areHeartBeatFilesAllStale")
+		if comb != nil {
+			called := false
+			allInstrs(isStaleM, func(in ssa.Instruction) {
+				if cl, ok := in.(*ssa.Call); ok && staticCallee(&cl.Call) == comb {
+					called = true
+				}
+			})
+			if !called {
+				comb = nil
+			}
+		}
+		if comb == nil {
+			comb = isStaleM
+		}
+		okU, whyU, posU := c.c17UnreadableIsAlive(isStaleM, comb, isStaleF)
+		c.check(okU, "R6", fname(isStaleM)+"/unreadable-is-alive", posU, "a heartbeat file that cannot be examined never licenses a take-over", whyU)
+	} else {
+		c.violate("R6", "filesystem.(*RemoteLockFile).IsStale/unreadable-is-alive", "", "IsStale / isStale not found")
 	}
 
 	// ---- R4 ---------------------------------------------------------------
